@@ -328,16 +328,98 @@ def r4(ctx):
                      replay_input='a 5000-byte line inside %{ %}: later #line N "lex.yy.c" directives are off by one')
     if n == 0: rep.broken('no line counter found in filter_fix_linedirs')
 
+# ------------------------------------------------------------------ R5
+
+def can_contain(ast, byte):
+    k = ast[0]
+    if k == 'set': return byte in ast[1]
+    if k in ('cat', 'alt'): return any(can_contain(x, byte) for x in ast[1])
+    if k == 'star': return can_contain(ast[1], byte)
+    return False
+
+R5_EXCEPT_STATES = {
+    # start condition: reason why no rule active only there may advance linenum although it consumes a newline
+    'LINEDIR': 'a #line directive in the input has just set linenum to the number of the NEXT line: the newline that ends the directive must not be counted',
+}
+
+def r5(ctx, sp):
+    """flex's own line accounting (every #line it emits is computed from `linenum`): a scan.l rule whose token can
+    contain a newline must advance linenum (or push the newline back to be re-scanned); a rule whose token cannot
+    contain one must not.  Decided on the IR of each action (case k of flexscan's action switch)."""
+    import c19
+    rep = ctx.rep; prog = ctx.flex
+    fs = prog.fn('flexscan')
+    if fs is None: rep.broken('flexscan not found')
+    sw = max([x for x in fs.ins if x.op == 'switch'], key=lambda x: len(x.cases))
+    nrules = sum(1 for r in sp.rules if not r.is_eof)
+    casevals = {cv for cv, _ in sw.cases}
+    # sanity of the numbering: cases 1..nrules (user rules), nrules+1 (default rule), nrules+2 (YY_END_OF_BUFFER) exist
+    if not all(v in casevals for v in range(1, nrules + 3)):
+        rep.broken('flexscan action switch does not have cases 1..%d: the scan.l model and the generated scanner disagree on the number of rules' % (nrules + 2))
+    n = 0
+    k = 0
+    for r in sp.rules:
+        if r.is_eof: continue
+        k += 1
+        a = lex.parse_pattern(r.pat, sp)
+        nl = can_contain(a['head'], 10)
+        tgt = [lab for cv, lab in sw.cases if cv == k]
+        if not tgt: rep.broken('flexscan has no case %d for scan.l:%d %r' % (k, r.line, r.pat))
+        # The action is case k of the action switch (flex numbers the non-EOF rules in file order).  Its region is
+        # delimited structurally (up to the switch's merge block), not by debug lines: the #line numbers in flex's own
+        # scanner are produced by the very accounting this rule is about.
+        b = fs.bmap[tgt[0]]
+        others = {fs.bmap[lab] for cv, lab in sw.cases if lab != tgt[0]}
+        def stop(bb, st, others=others):
+            return bb.name.startswith('sw.epilog') or bb in others
+        ev = c19.RegionEval(prog, fs, {}, stop)
+        try: ev.run(b)
+        except c19.Unknown:
+            rep.note('C20.R5 scan.l:%d: action not evaluable' % r.line); continue
+        incs = [v for v in ev.effects.get('@linenum', ()) if isinstance(v, tuple) and v[0] == 'sym' and 'linenum' in str(v[1]) and 'add' in str(v[1])]
+        sets = [v for v in ev.effects.get('@linenum', ()) if v not in incs]
+        pushes_back = any(cal in ('yyunput_r', 'yyunput', 'unput') for cal, _ in ev.calls) or bool(re.search(r'\byyless\s*\(|\bunput\s*\(', r.action))
+        errors_out = any(cal in ('synerr', 'format_synerr', 'flexfatal', 'flexerror', 'lerr') for cal, _ in ev.calls)
+        scs = ','.join(r.scs) if r.scs else 'INITIAL'
+        key = 'C20.R5:scan.l:%s:%s' % (scs, r.pat)
+        n += 1
+        if r.scs and set(r.scs) <= set(R5_EXCEPT_STATES):
+            if incs:
+                rep.fail('C20.R5', 'C20.R5:scan.l:%s:counted-after-line-directive' % scs, 'scan.l:%d <%s>' % (r.line, scs),
+                         'rule %r advances linenum although %s: every #line directive emitted afterwards is one too high' % (r.pat, R5_EXCEPT_STATES[r.scs[0]]),
+                         replay_input='#line 100 "orig.src" in section 1 of the input')
+            else:
+                rep.ok('C20.R5', 'scan.l:%d <%s> %r leaves linenum as the directive set it' % (r.line, scs, r.pat))
+            continue
+        if nl and not incs:
+            if pushes_back:
+                rep.ok('C20.R5', 'scan.l:%d <%s> %r may match a newline and pushes text back to be re-scanned' % (r.line, scs, r.pat)); continue
+            if errors_out and not RAW_RE.search(r.action):
+                rep.ok('C20.R5', 'scan.l:%d <%s> %r may match a newline only on its way to a syntax error (exit status is non-zero)' % (r.line, scs, r.pat)); continue
+            if set(r.scs) <= {'SECT3', 'SECT3_NOESCAPE'}:
+                rep.ok('C20.R5', 'scan.l:%d <%s> %r: section 3 is copied to the end of the output, no line directive follows it' % (r.line, scs, r.pat)); continue
+            w = lex.intersect_witness(a['head'], ('cat', [('star', ('set', lex.ALL)), ('set', frozenset([10])), ('star', ('set', lex.ALL))]))
+            rep.fail('C20.R5', key + ':newline-not-counted', 'scan.l:%d <%s>' % (r.line, scs),
+                     'rule %r can consume a newline (e.g. token %r) but its action never advances linenum: every #line directive emitted afterwards is one too low' % (r.pat, w),
+                     replay_input=repr(w))
+        elif not nl and incs:
+            rep.fail('C20.R5', key + ':counted-without-newline', 'scan.l:%d <%s>' % (r.line, scs),
+                     'rule %r cannot match a newline but its action advances linenum: every #line directive emitted afterwards is one too high' % r.pat)
+        else:
+            rep.ok('C20.R5', 'scan.l:%d <%s> %r: newline %s, linenum %s' % (r.line, scs, r.pat, 'possible' if nl else 'impossible', 'advanced' if incs else 'untouched'))
+    return n
+
 def run(ctx):
     rep = ctx.rep
     sp = lex.parse_spec(ctx.art.source('scan.l'))
     rep.require(len(sp.rules) >= 250, 'scan.l model has only %d rules' % len(sp.rules))
     rep.setcount('scan_l_rules', len(sp.rules))
-    r1(ctx); r2(ctx, sp); r3(ctx, sp); r4(ctx)
+    r1(ctx); r2(ctx, sp); r3(ctx, sp); r4(ctx); r5(ctx, sp)
     rep.floor('C20.R1', 2, 'line_directive_out + the %top trampoline')
     rep.floor('C20.R2', 60, 'raw-echo rule x copying start condition pairs')
     rep.floor('C20.R3', 8, 'entry rules + 2 cross-module openers + section 3')
     rep.floor('C20.R4', 1, 'lineno in filter_fix_linedirs')
+    rep.floor('C20.R5', 250, 'one obligation per non-EOF rule of scan.l')
     rep.undecided += ['byte-for-byte equality of copied text for all contents', 'correctness of each linenum value passed to line_directive_out',
                       'm4 macro names and $n inside user text (protected by the quotes checked here)']
     rep.assumptions += ['E3 pattern model agrees with flex on the scan.l subset (all 279 rules parse; priority = longest match then first rule)',
